@@ -14,7 +14,7 @@ for d in sorted((VERIF / "seeded").iterdir()):
     sigs = [s.replace("signature:", "").strip().strip('",') for s in chk.get("violation_lines", []) if "signature" in s]
     rows.append((d.name, j.get("property"), (j.get("what") or "").replace("\n", " ").replace("|", "/")[:230],
                  "yes" if j.get("confirmed", {}).get("all") else "NO",
-                 "yes" if chk.get("detected") else "NO", (sigs[0] if sigs else "")[:90]))
+                 ("obsolete" if j.get("obsolete") else "yes" if chk.get("detected") else "NO"), (sigs[0] if sigs else (j.get("obsolete") or ""))[:200]))
 out = ["# Seeded property-breaking changes", "",
        "Written by independent sub-agents that saw only the property text; each passes the repository's test suite and fails its own demo.",
        "`confirmed` = patch applies, suite passes with it, demo fails with it and passes without; `detected` = the property's quick check exits 1 "
@@ -23,6 +23,7 @@ out = ["# Seeded property-breaking changes", "",
 for r in rows:
     out.append("| " + " | ".join(str(x) for x in r) + " |")
 out.append("")
-out.append(f"{len(rows)} changes, {sum(1 for r in rows if r[4] == 'yes')} detected.")
+out.append(f"{len(rows)} changes: {sum(1 for r in rows if r[4] == 'yes')} detected, {sum(1 for r in rows if r[4] == 'obsolete')} obsolete "
+           f"(neutralised by a repair of a genuine defect), {sum(1 for r in rows if r[4] == 'NO')} missed.")
 (VERIF / "seeded" / "INDEX.md").write_text("\n".join(out) + "\n")
 print(out[-1])
